@@ -706,6 +706,15 @@ V("c16-twin-budget-helper", "C16", "-", "dask_array/_core_utils.py", None, None,
   ("dask_array/_core_utils.py", "def auto_chunks(", "def _largest(cs):\n    return cs if isinstance(cs, Number) else max(cs)\n\n\ndef auto_chunks("),
 ])
 
+V("c16-share-live-set-size", "C16", "R16.5", "dask_array/_core_utils.py", None, None, expect="auto_chunks", edits=[
+  ("dask_array/_core_utils.py", "                this_multiplier = multiplier ** (1 / len(last_autos))", "                this_multiplier = multiplier ** (1 / len(autos))"),
+])
+V("c16-twin-share-snapshot-count", "C16", "-", "dask_array/_core_utils.py", None, None, twin=True, edits=[
+  ("dask_array/_core_utils.py", "            last_autos = set(autos)  # record previous values\n", "            n_autos = len(autos)  # record previous size\n"),
+  ("dask_array/_core_utils.py", "                this_multiplier = multiplier ** (1 / len(last_autos))", "                this_multiplier = multiplier ** (1 / n_autos)"),
+  ("dask_array/_core_utils.py", "                this_chunksize_tolerance = chunksize_tolerance ** (1 / len(last_autos))", "                this_chunksize_tolerance = chunksize_tolerance ** (1 / n_autos)"),
+])
+
 # ---------------------------------------------------------------------------- C24
 V("c24-rechunk-pushdown-drops-getitem", "C24", "R24.1", "dask_array/io/_from_array.py",
   "            chunks,\n            lock=self.operand(\"lock\"),\n            getitem=self.operand(\"getitem\"),\n            inline_array=self.inline_array,",
